@@ -73,7 +73,24 @@ def eval_scenario(arg):
     par = 2 if mode != "seq" else None
     if par:
         flags = flags + ["--native-parser"] if False else flags
-    st0, ops = pre if pre else project.history(seed, nmods, 3)
+    if pre:
+        st0, ops = pre
+    else:
+        st0, ops = project.history(seed, nmods, 3)
+        if seed % 2 == 0:
+            # every second scenario ends with a body-only edit (errors change, interfaces do not): then only the edited
+            # module is re-written in run 2 and a torn entry is not repaired by re-checking dependants
+            import random as _r
+
+            st_ = histrun.replay_state(st0, ops, len(ops))
+            rnd_ = _r.Random(seed)
+            for _ in range(20):
+                mod = rnd_.choice(sorted(st_["mods"]))
+                op = {"op": "toggle_body_error", "mod": mod, "seed": rnd_.randrange(2**30)}
+                st2 = copy.deepcopy(st_)
+                if project.apply_edit(st2, op) and project.render(st2) != project.render(st_):
+                    ops = ops + [op]
+                    break
     root = mypyrun.scratch("c04")
     c1 = mypyrun.scratch("c04c1")
     res = {"seed": seed, "store": store, "mode": mode, "points": [], "st0": st0, "ops": ops, "K": 0}
@@ -84,13 +101,13 @@ def eval_scenario(arg):
         st = copy.deepcopy(st0)
         for op in ops[:-1]:
             project.apply_edit(st, op)
-        proj.sync(project.render(st))
+        proj.sync(project.render(st), project.unlisted_paths(st))
         r1 = run_sub(root, proj.targets(), flags, c1, par=par)
         if histrun.crashed(r1):
             res["skip"] = "run1 crashed"
             return res
         project.apply_edit(st, ops[-1])
-        changed = proj.sync(project.render(st))
+        changed = proj.sync(project.render(st), project.unlisted_paths(st))
         targets = proj.targets()
         # oracle: cold run on the edited files
         cold_dir = mypyrun.scratch("c04cold")
@@ -134,10 +151,19 @@ def eval_scenario(arg):
             for _ in range(4):
                 faults.append({"fail_writes": sorted(rnd.sample(range(nwrites), rnd.randrange(2, nwrites + 1)))})
         if max_points and len(faults) > max_points:
-            keep = faults[: K + 1] if K + 1 <= max_points else [faults[i] for i in sorted(rnd.sample(range(K + 1), max_points))]
-            rest = [f for f in faults if f not in keep]
-            rnd.shuffle(rest)
-            faults = keep + rest[: max(0, max_points - len(keep))]
+            # quick tier: all kill positions (sampled if there are more than the cap), then singles, then pairs
+            kills = faults[: K + 1]
+            if len(kills) > max_points * 2 // 3:
+                kills = [kills[i] for i in sorted(rnd.sample(range(len(kills)), max_points * 2 // 3))]
+            rest = faults[K + 1 :]
+            singles = [f for f in rest if len(f.get("fail_writes", [])) == 1]
+            multi = [f for f in rest if len(f.get("fail_writes", [])) > 1]
+            rnd.shuffle(multi)
+            # a failed DATA write combined with another failure is the most dangerous pair (the entry's meta may
+            # survive next to an old data file): try those first
+            wnames = [o["name"] for o in mine if o["op"] == "write"]
+            multi.sort(key=lambda f: 0 if any(i < len(wnames) and ".data." in wnames[i] for i in f["fail_writes"]) else 1)
+            faults = (kills + singles + multi)[:max_points]
         if only_fault is not None:
             faults = [only_fault]
         for fault in faults:
@@ -188,16 +214,19 @@ def eval_scenario(arg):
     return res
 
 
-def record_kinds(between) -> str:
-    def k(x):
+def record_kinds(between, kind: str) -> str:
+    def rk(x):
         if not x:
             return "-"
         for suf in ("meta_ex", "meta", "data"):
             if "." + suf in x:
-                return x.split(" ")[0] + ":" + suf
-        return x.split(" ")[0]
+                return suf
+        return "other"
 
-    return "%s>%s" % (k(between[0]), k(between[1])) if len(between) == 2 and (between[0] is None or " " in (between[0] or " ")) else "fail:" + ",".join(sorted({k("write " + b).split(":")[1] for b in between}))
+    if kind == "kill":
+        a, b = (between + [None, None])[:2]
+        return "%s:%s>%s:%s" % ((a or "-").split(" ")[0], rk(a), (b or "-").split(" ")[0], rk(b))
+    return "fail:" + ",".join(sorted({rk(b) for b in between}))
 
 
 def judge(run: Run, res) -> None:
@@ -215,7 +244,7 @@ def judge(run: Run, res) -> None:
         if "problem" in p:
             klass, detail, codes = p["problem"]
             kind = "kill" if "kill_before" in p["fault"] else "failed-write"
-            sg = "%s|%s|%s|%s|%s" % (klass if klass != "crash" else "crash", res["store"].split("-")[0], res["mode"], kind, record_kinds(p["between"]))
+            sg = "%s|%s|%s|%s|%s" % (klass if klass != "crash" else "crash", res["store"].split("-")[0], res["mode"], kind, record_kinds(p["between"], kind))
             case = {"seed": res["seed"], "store": res["store"], "mode": res["mode"], "st0": res["st0"], "ops": res["ops"], "fault": p["fault"]}
             run.report(sg, case, "scenario seed %d, %s, %s build: %s %s -> the next (warm) run differs from a cold run: %s %s" % (res["seed"], res["store"], res["mode"], kind, p["between"], klass, detail))
 
@@ -242,7 +271,7 @@ def run(run: Run) -> None:
     seeds = []
 
     @hypothesis.seed(run.seed)
-    @settings(max_examples=3 if q else 40, database=None, deadline=None, suppress_health_check=list(HealthCheck), phases=[hypothesis.Phase.generate])
+    @settings(max_examples=4 if q else 40, database=None, deadline=None, suppress_health_check=list(HealthCheck), phases=[hypothesis.Phase.generate])
     @given(st.integers(0, 2**40), st.integers(5, 7))
     def draw(s, n):
         seeds.append((s, n))
@@ -251,7 +280,7 @@ def run(run: Run) -> None:
     work = []
     for s, n in dict.fromkeys(seeds):
         for store in (["fs-binary", "sqlite-binary"] if q else list(STORES)):
-            work.append((s, n, store, "seq", 40 if q else 0, run.seed))
+            work.append((s, n, store, "seq", 60 if q else 0, run.seed))
             if not q and store.endswith("binary"):
                 work.append((s, n, store, "main", 0, run.seed))
                 work.append((s, n, store, "worker", 0, run.seed))
@@ -264,4 +293,4 @@ def run(run: Run) -> None:
         if run.out_of_time(280 if q else 3400):
             break
     run.exhaustive = True
-    run.extra["exhaustive_subspaces"] = "all kill positions 0..K and all single failed writes of each enumerated scenario (quick tier: capped at 40 faults per scenario)"
+    run.extra["exhaustive_subspaces"] = "all kill positions 0..K and all single failed writes of each enumerated scenario (quick tier: capped at 60 faults per scenario)"
